@@ -23,6 +23,9 @@ TAG_VALUES = ["a", "ab", "abc", "b", "", "a\x00b", "é", "ü", "\U0001f600", "'"
               "A", "0", "17", "1700000000"]
 
 
+FAMILY = ["a", "ab", "abc", "b", "bc", "c", "", "abcd"]
+
+
 def mkid(rng, i=None):
     style = rng.random()
     if style < 0.12:
@@ -95,7 +98,8 @@ def gen_filter(rng, events, limit_pool=(None, None, None, 0, 1, 2, 3, 5, 100)):
         return out
 
     parts = rng.choice([["ids"], ["authors"], ["kinds"], ["kinds", "authors"], ["tags"], ["kinds", "tags"],
-                        ["authors", "tags"], ["authors", "kinds", "tags"], ["time"], ["ids", "kinds"], ["tags", "tags"]])
+                        ["authors", "tags"], ["authors", "kinds", "tags"], ["time"], ["ids", "kinds"], ["tags", "tags"],
+                        ["ids", "tags"], ["kinds", "tags"]])
     for p in parts:
         if p == "ids":
             f["ids"] = pick_ids()
@@ -110,6 +114,8 @@ def gen_filter(rng, events, limit_pool=(None, None, None, 0, 1, 2, 3, 5, 100)):
                 name, vals = t[0], [t[1]]
             else:
                 name, vals = rng.choice(["e", "p", "t", "d", "é"]), [rng.choice(TAG_VALUES)]
+            if rng.random() < 0.3:
+                name, vals = rng.choice(["t", "t", "e", "d"]), [rng.choice(FAMILY)]
             for _ in range(rng.choice([0, 0, 1, 2])):
                 vals.append(rng.choice(TAG_VALUES))
             f["#" + name] = vals
